@@ -813,6 +813,11 @@ impl<'a> Gen<'a> {
             }
             return Expr::BLit(self.rng.bool());
         }
+        if self.rng.chance(1, 8) {
+            if let Some(e) = self.guard_idiom() {
+                return e;
+            }
+        }
         match self.rng.below(10) {
             0 => Expr::Un(UnOp::Not, Box::new(self.gen_bool(depth - 1))),
             1 | 2 => {
@@ -997,6 +1002,11 @@ impl<'a> Gen<'a> {
             }
             return Expr::BLit(self.rng.bool());
         }
+        if self.rng.chance(1, 8) {
+            if let Some(e) = self.guard_idiom() {
+                return e;
+            }
+        }
         match self.rng.below(10) {
             0 => Expr::Un(UnOp::Not, Box::new(self.gen_strict_bool(depth - 1))),
             1 | 2 => {
@@ -1035,6 +1045,37 @@ impl<'a> Gen<'a> {
                 }
             }
         }
+    }
+
+    /// The everyday guard: `d <> 0 AND n / d > 2`, `d = 0 OR n MOD d = 1` — correct only if AND/OR
+    /// short-circuit.  Same-kind variables and typed literals, so it is valid in every profile.
+    fn guard_idiom(&mut self) -> Option<Expr> {
+        let present: Vec<IKind> = KINDS.iter().copied().filter(|k| self.int_vars(&[*k]).len() >= 1).collect();
+        if present.is_empty() {
+            return None;
+        }
+        let k = *self.rng.pick(&present);
+        let vars = self.int_vars(&[k]);
+        let d = self.rng.pick(&vars).clone();
+        let n = self.rng.pick(&vars).clone();
+        let zero = Expr::Lit(Some(k), 0);
+        let op = if self.rng.bool() { BinOp::Div } else { BinOp::Mod };
+        let quotient = Expr::Bin(op, Box::new(Expr::Var(n)), Box::new(Expr::Var(d.clone())));
+        let cmp = *self.rng.pick(&[BinOp::Gt, BinOp::Le, BinOp::Eq, BinOp::Ne]);
+        let rhs = Expr::Bin(cmp, Box::new(quotient), Box::new(Expr::Lit(Some(k), self.rng.below(3) as i128)));
+        Some(if self.rng.bool() {
+            Expr::Bin(
+                BinOp::And,
+                Box::new(Expr::Bin(BinOp::Ne, Box::new(Expr::Var(d)), Box::new(zero))),
+                Box::new(rhs),
+            )
+        } else {
+            Expr::Bin(
+                BinOp::Or,
+                Box::new(Expr::Bin(BinOp::Eq, Box::new(Expr::Var(d)), Box::new(zero))),
+                Box::new(rhs),
+            )
+        })
     }
 
     fn cond(&mut self, depth: u32) -> Expr {
@@ -1076,6 +1117,19 @@ impl<'a> Gen<'a> {
     fn gen_stmt(&mut self, depth: u32, in_loop: bool, out: &mut Vec<Stmt>) {
         if !in_loop && self.sab("exit-outside-loop") {
             out.push(if self.rng.bool() { Stmt::Exit } else { Stmt::Continue });
+            return;
+        }
+        if in_loop && self.rng.chance(1, 9) {
+            // EXIT / CONTINUE, usually under a condition, anywhere in a loop body (also at depth 0)
+            let s = if self.rng.bool() { Stmt::Exit } else { Stmt::Continue };
+            if self.rng.chance(3, 4) {
+                let c = self.cond(1);
+                out.push(Stmt::If(c, vec![s], Vec::new(), Vec::new()));
+            } else {
+                out.push(s);
+            }
+            // something after it, so that skipping/leaving is observable
+            out.push(self.gen_assign());
             return;
         }
         let roll = if depth == 0 { self.rng.below(50) } else { self.rng.below(100) };
@@ -1781,6 +1835,109 @@ pub fn raw_witnesses() -> Vec<(&'static str, &'static str)> {
     ]
 }
 
+pub const MATRIX_BASE: u64 = 2_000_000;
+
+/// Exhaustive tables over the nine types of the fragment (BOOL + 8 integer kinds): assignability,
+/// operand acceptance of one operator per class, unary operators, FOR control/bound kinds, CASE
+/// selector/label kinds.  Tiny programs, one cycle each; they pin the checker's tables
+/// (`is_assignable`, `wider_numeric`, `check_comparable`, …) and the dispatch on dynamic tags.
+pub fn matrix_programs() -> Vec<(String, Program)> {
+    let mut types = vec![Ty::Bool];
+    types.extend(KINDS.iter().map(|k| Ty::Int(*k)));
+    let init = |t: Ty, alt: bool| -> i128 {
+        match t {
+            Ty::Bool => 1,
+            Ty::Int(k) => {
+                if k.signed() {
+                    if alt { 2 } else { -3 }
+                } else if alt { 4 } else { 5 }
+            }
+        }
+    };
+    let mk = |name: &str, t: Ty, alt: bool| VarDecl { name: name.into(), ty: t, init: init(t, alt), typed_init: false, has_init: true };
+    let mut out = Vec::new();
+    for &t1 in &types {
+        for &t2 in &types {
+            out.push((
+                format!("assign-{}-{}", t1.name(), t2.name()),
+                Program { decls: vec![mk("x", t1, true), mk("y", t2, false)], body: vec![asg("x", v("y"))] },
+            ));
+        }
+    }
+    for (opname, op) in [("add", BinOp::Add), ("lt", BinOp::Lt), ("eq", BinOp::Eq), ("and", BinOp::And), ("mul", BinOp::Mul)] {
+        for &t1 in &types {
+            for &t2 in &types {
+                let target = match (op, t1, t2) {
+                    (BinOp::Add | BinOp::Mul, Ty::Int(a), Ty::Int(b)) => Ty::Int(if a.rank() >= b.rank() { a } else { b }),
+                    (BinOp::Add | BinOp::Mul, _, _) => Ty::Int(IKind::DInt),
+                    _ => Ty::Bool,
+                };
+                out.push((
+                    format!("bin-{opname}-{}-{}", t1.name(), t2.name()),
+                    Program {
+                        decls: vec![mk("l", t1, false), mk("r", t2, true), mk("z", target, true)],
+                        body: vec![asg("z", bin(op, v("l"), v("r")))],
+                    },
+                ));
+            }
+        }
+    }
+    for &t1 in &types {
+        out.push((
+            format!("neg-{}", t1.name()),
+            Program { decls: vec![mk("l", t1, true), mk("z", t1, true)], body: vec![asg("z", neg(v("l")))] },
+        ));
+        out.push((
+            format!("not-{}", t1.name()),
+            Program {
+                decls: vec![mk("l", t1, true), mk("z", Ty::Bool, true)],
+                body: vec![asg("z", Expr::Un(UnOp::Not, Box::new(v("l"))))],
+            },
+        ));
+    }
+    for &t1 in &types {
+        for &t2 in &types {
+            out.push((
+                format!("for-{}-{}", t1.name(), t2.name()),
+                Program {
+                    decls: vec![
+                        mk("c", t1, true),
+                        VarDecl { name: "lo".into(), ty: t2, init: 1, typed_init: false, has_init: true },
+                        VarDecl { name: "hi".into(), ty: t2, init: if t2 == Ty::Bool { 1 } else { 3 }, typed_init: false, has_init: true },
+                        mk("n", Ty::Int(IKind::DInt), true),
+                    ],
+                    body: vec![Stmt::For(
+                        "c".into(),
+                        v("lo"),
+                        v("hi"),
+                        None,
+                        vec![asg("n", bin(BinOp::Add, v("n"), lit(1)))],
+                    )],
+                },
+            ));
+        }
+    }
+    for &t1 in &types {
+        for &k2 in &KINDS {
+            out.push((
+                format!("case-{}-{}", t1.name(), k2.name()),
+                Program {
+                    decls: vec![mk("s", t1, true), mk("n", Ty::Int(IKind::DInt), true)],
+                    body: vec![Stmt::Case(
+                        v("s"),
+                        vec![
+                            (vec![Label::Single(LabLit { ty: Some(k2), v: 2 })], vec![asg("n", lit(10))]),
+                            (vec![Label::Range(LabLit { ty: Some(k2), v: 3 }, LabLit { ty: Some(k2), v: 5 })], vec![asg("n", lit(20))]),
+                        ],
+                        vec![asg("n", lit(30))],
+                    )],
+                },
+            ));
+        }
+    }
+    out
+}
+
 fn emit_raw(out: &mut Out, n: u64, id: &str, source: &str) {
     out.line(format!("case {n}"));
     out.line(format!("tag witness raw-{id}"));
@@ -1812,7 +1969,14 @@ pub fn run_focus(args: &Args, focus: Focus) -> i32 {
             emit_raw(out, n, id, src);
         }
     };
+    let matrix = matrix_programs();
     for n in args.case_numbers() {
+        if n >= MATRIX_BASE {
+            if let Some((id, prog)) = matrix.get((n - MATRIX_BASE) as usize) {
+                emit_case(&mut out, n, prog, &format!("matrix mx-{id}"), vec![Vec::new()]);
+            }
+            continue;
+        }
         if n >= WITNESS_BASE {
             run_witness(&mut out, (n - WITNESS_BASE) as usize);
             continue;
@@ -1834,6 +1998,10 @@ pub fn run_focus(args: &Args, focus: Focus) -> i32 {
         for idx in 0..ws.len() + raws.len() {
             run_witness(&mut out, idx);
         }
+        for (i, (id, prog)) in matrix.iter().enumerate() {
+            emit_case(&mut out, MATRIX_BASE + i as u64, prog, &format!("matrix mx-{id}"), vec![Vec::new()]);
+        }
+        out.add("matrix-programs", matrix.len() as u64);
     }
     out.finish(&args.out);
     0
